@@ -7,9 +7,9 @@ Ltac rsimp :=
   cbn [server rstreams rsinks next_id b_req b_rep b_err rqueue rclosed rctl sp stp rh_armed rarmed rgh
        u_ctl u_server u_streams u_sinks u_next u_req u_rep u_err u_queue u_closed u_flags u_harmed u_armed u_gh
        h_reqs_pulled h_reqs_sent h_reqs_refused h_reqs_dropped h_reps_pulled h_reps_routed h_reps_failed
-       h_reps_discarded h_bound h_rejected h_keys h_used
+       h_reps_discarded h_bound h_rejected h_keys h_used h_told h_closed h_rej_failed
        gh_req_pulled gh_req_sent gh_req_refused gh_req_dropped gh_rep_pulled gh_rep_routed gh_rep_failed
-       gh_rep_discarded gh_bound gh_rejected gh_key gh_use] in *.
+       gh_rep_discarded gh_bound gh_rejected gh_key gh_use gh_told gh_closed gh_rej_failed] in *.
 
 Definition dealt (s : rst) : nat :=
   (List.length (h_reps_routed (rgh s)) + List.length (h_reps_failed (rgh s)) + List.length (h_reps_discarded (rgh s))
